@@ -54,6 +54,57 @@ _cc_contract('cube-vector-qe', 'vector', True)
 _cc_contract('frame-scalar-qe', 'scalar', False)
 
 
+def _cc_spectrum_contract(unit, qe_unit):
+    """QE given as a Spectrum (Spectrum.sample abstract: a pointwise interpolant of the spectrum as it is, the
+    requested unit recorded): the spectrum is sampled once, at the caller's wavelengths, in the CALLER's
+    wavelength unit, and the charge is the sum over slices of photons x that sample."""
+    from contracts import radiometry as Rm
+    tag = 'cube-spectrum-qe[%s,qe in %s]' % (unit, qe_unit)
+    c = contract('lentil.detector.collect_charge#%s' % tag, level='I')
+    c.qualname = 'lentil.detector.collect_charge'
+    c.tag = tag
+
+    def params(ctx):
+        R, C = shape2(ctx, 'img')
+        Lw = ctx.fresh_int('nwave')
+        ctx.assume(Lw >= 1)
+        img = array(ctx, 'img', (Lw, R, C), 'float')
+        wave = array(ctx, 'wave', (Lw,), 'float')
+        qe = Rm.mk_spectrum(ctx, 'qe', waveunit=qe_unit)
+        return {'img': img, 'wave': wave, 'qe': qe, 'waveunit': unit}
+    c.params = params
+    c.modifies = {'qe'}       # Spectrum.sample converts the spectrum to the requested unit (its documented behaviour)
+
+    @c.post('spectrum_sampled_in_the_callers_unit')
+    def _(ctx, env0, env, out):
+        if getattr(ctx, 'replaying', False):
+            return None
+        from lvc.prove import with_hyp
+        img = env0['img']
+        Lw, R, C = img.shape
+        calls = ctx.__dict__.get('ghost_sample_calls', [])
+        name = 'detector.collect_charge::%%s[%s]' % tag
+        ok = len(calls) == 1 and calls[0]['self'] is env['qe']
+        ctx.oblige(name % 'qe_spectrum_sampled_once', ok, info={'calls': len(calls)})
+        if not ok:
+            return None
+        ctx.oblige(name % 'sampled_in_the_callers_wavelength_unit', calls[0]['waveunit'] == unit,
+                   info={'requested': calls[0]['waveunit'], 'caller': unit})
+        r, cc = ints(ctx, 'r', 'c')
+        q = lambda i: Rm.interp_value(ctx, env['qe'], calls[0]['method'], calls[0]['fill'], env0['wave'].at((i,)))
+        want = S.sigma(0, Lw, lambda i: S.mul(img.at((i, r, cc)), q(i)))
+        with_hyp(ctx, [r >= 0, r < R, cc >= 0, cc < C],
+                 lambda: oblige_equal(ctx, name % 'sum_over_wavelength_of_photons_times_sampled_qe', out.value.at((r, cc)), want))
+        return None
+    return c
+
+
+CC_SPECTRUM = []
+for _u, _q in (('nm', 'nm'), ('um', 'nm'), ('m', 'um'), ('angstrom', 'nm')):
+    _cc_spectrum_contract(_u, _q)
+    CC_SPECTRUM.append('lentil.detector.collect_charge#cube-spectrum-qe[%s,qe in %s]' % (_u, _q))
+
+
 # ---------------------------------------------------------------------------------------
 PATTERNS = ['RGGB', 'GRBG', 'BGGR', 'RGBGBRBRG', 'R']
 
